@@ -236,7 +236,7 @@ const prelude = `
 (assert (forall ((s Str) (p Str) (q Str)) (! (=> (and (sprefix s p) (sprefix p q)) (sprefix s q)) :pattern ((sprefix s p) (sprefix p q)))))
 (assert (forall ((s Str) (p Str) (i Int)) (! (=> (and (sprefix s p) (<= 0 i) (< i (slen p))) (= (sbyte s i) (sbyte p i))) :pattern ((sprefix s p) (sbyte p i)))))
 (assert (forall ((a Str) (b Str)) (! (sprefix (sconcat a b) a) :pattern ((sconcat a b)))))
-(assert (forall ((a Tim) (b Tim)) (! (=> (= (instant a) (instant b)) (= (instant a) (instant b))) :pattern ((instant a) (instant b)))))
+(assert (forall ((s Str) (b Int)) (! (=> (and (<= 0 b) (<= b (slen s))) (sprefix s (ssub s 0 b))) :pattern ((ssub s 0 b)))))
 (assert (forall ((i Int)) (! (= (instant (mktime i)) i) :pattern ((mktime i)))))
 `
 
